@@ -49,6 +49,16 @@ def make_cases(ctx):
         kw = {"languages": ["en"]}
         if parser == "abs":
             st["RELATIVE_BASE"] = list(ref) + [10, 30, 0, 0]
+            # month written by name, four-digit year: the result does not depend on the order in which numbers are read,
+            # whether that order is given explicitly or comes with the locale (en-CA, en-ZA, en-SE read year first)
+            if y >= 1000 and "%m" not in fmt and parts != "y":
+                r_ = rng.random()
+                if r_ < 0.35:
+                    st["DATE_ORDER"] = rng.choice(["DMY", "DYM", "MDY", "MYD", "YDM", "YMD"])
+                elif r_ < 0.5:
+                    kw = {"locales": [rng.choice(["en-CA", "en-ZA", "en-SE", "en-GB", "en-AU", "en-IN"])]}
+                elif r_ < 0.6:
+                    kw = {"languages": ["en"], "region": rng.choice(["CA", "ZA", "GB", "NZ"])}
         else:
             # the format under test among formats that do not match (none of the strings contains '#'): coarser ones
             # before it, finer ones after it - the result and its period must be the matching format's alone
@@ -98,7 +108,7 @@ def make_cases(ctx):
 
 def describe(c):
     return {"call": "DateDataParser(%s, settings=%r).get_date_data(%r%s)" % (
-        "languages=['en']", c["settings"], c["s"],
+        ", ".join("%s=%r" % kv for kv in c["kw"].items() if kv[0] != "date_formats"), c["settings"], c["s"],
         ", date_formats=%r" % c["kw"]["date_formats"] if "date_formats" in c["kw"] else ""), "parser": c["parser"], "parts": c["parts"]}
 
 
